@@ -128,7 +128,7 @@ func c17Cases(level int) []SCase {
 		}
 	}
 	for _, sc := range leafFamily(0) {
-		if sc.Axes["pos"] == "prop" || sc.Axes["pos"] == "nested" || sc.Axes["pos"] == "def" || (level >= 1 && sc.Axes["pos"] != "anyof") {
+		if sc.Axes["pos"] == "prop" || sc.Axes["pos"] == "nested" || sc.Axes["pos"] == "def" || (level >= 1 && !strings.HasPrefix(sc.Axes["pos"], "anyof")) {
 			sc.ID = "C17/" + sc.ID
 			cases = append(cases, sc)
 		}
@@ -275,6 +275,11 @@ func c17(ctx *Ctx) {
 				for _, dv := range devs {
 					ctx.Run.Known(dv, fmt.Sprintf("%s doc=%s model=%s json=%s", pr.sc.ID, pr.doc.Text, pr.tv, jv), replay)
 				}
+			} else if devs, ok := attribute(pr.m, pr.doc.V, ov, append(append([]string{}, listedAll...), c17Unjudged...)); ok && anyIn(devs, c17Unjudged) {
+				// string / numeric / array-length constraints on map values and typed additional properties: no property
+				// statement covers that cell (C05 / C06 name property and definition positions, C07 array elements), so the
+				// reference model's verdict is not a claim there
+				ctx.Run.Count("json_vs_model_in_a_cell_no_statement_covers(not judged)", 1)
 			} else {
 				ctx.Run.Violation("extra-imports-json-vs-model:"+pr.tv.String()+"/"+jv+":"+pr.sc.Axes["pos"]+":"+coarseClass(pr.doc.Class),
 					fmt.Sprintf("%s: document %s: with --extra-imports the JSON path says %s (%s), the reference model says %s", pr.sc.ID, pr.doc.Text, jv, firstLine(pr.j.Err+pr.j.Panic), pr.tv), replay)
@@ -317,3 +322,17 @@ var c17ModelDevs = []string{"NULLABLE_DEF_UNENFORCED", "LEN_BYTES", "ZERO_LIMIT_
 	"UNENFORCED_ITEM_NUMERIC", "UNENFORCED_NAMED_ARRAY_ITEM_REQUIRED", "UNENFORCED_INLINE_STRUCT_PROPS", "REF_UNTYPED_DEF_IS_ANY", "SIZED_INT_ENUM_REJECTS_ALL", "DEFAULT_ENUM_NULL_REJECTED",
 	"FORMAT_DEF_NO_METHODS", "NULL_TO_ADDL_STRUCT_ERRORS", "NULL_OBJECT_VALIDATES_ZERO", "REQUIRED_UNDECLARED_IGNORED", "UNENFORCED_MAPVAL_REQUIRED", "NULLTYPE_UNENFORCED", "ADDL_INT_TRUNCATES",
 	"ADDL_NONPRIMITIVE_UNTYPED", "ANYOF_MERGED_FIELD_TYPES", "UNENFORCED_MAPVAL_STRING", "UNENFORCED_MAPVAL_NUMERIC"}
+
+// constraint families at positions no property statement covers (DESIGN.md §8, attachment matrix): explained, never judged
+var c17Unjudged = []string{"UNENFORCED_MAPVAL_STRING", "UNENFORCED_MAPVAL_NUMERIC", "UNENFORCED_MAPVAL_ARRAY", "UNENFORCED_ADDL_STRING", "UNENFORCED_ADDL_NUMERIC", "UNENFORCED_ADDL_ARRAY"}
+
+func anyIn(a, b []string) bool {
+	for _, x := range a {
+		for _, y := range b {
+			if x == y {
+				return true
+			}
+		}
+	}
+	return false
+}
